@@ -81,6 +81,16 @@ def family():
     return out
 
 
+ANCHOR_STYLE = [
+    "a: &x true\nb: *x\nc:\n  - *x\n  - txt\n",
+    "a: true\nb: true\nc:\n  - true\n  - txt\n",
+    "a: &x false\nb: *x\nc:\n  - *x\n  - txt\n",
+    "a: false\nb: false\nc:\n  - false\n  - txt\n",
+    "a: &n 5\nb: *n\nc:\n  - *n\n  - txt\n",
+    "a: 5\nb: 5\nc:\n  - 5\n  - txt\n",
+    "a: &s word\nb: *s\nc:\n  - *s\n  - txt\n",
+    "a: word\nb: 'word'\nc:\n  - \"word\"\n  - txt\n",
+]
 _CORPUS = None
 
 
@@ -531,6 +541,14 @@ def run_shard(shard):
                 check_pair(text, text, arrays, aoh, res, "self-diff")
     elif shard["kind"] == "fam":
         fam = [gdocs.emit(s) for s in family()]
+        if shard["part"] == 0:
+            # the same data with and without anchors / aliases (an anchored
+            # scalar loads as another node class than a plain one)
+            for lt in ANCHOR_STYLE:
+                for rt in ANCHOR_STYLE:
+                    for arrays, aoh in modes:
+                        check_pair(lt, rt, arrays, aoh, res)
+                        res.label("anchored-vs-plain")
         n = 0
         for lt in fam:
             for rt in fam:
